@@ -9,20 +9,25 @@ use crate::driver::{AnyFlow, ReqCfg};
 use crate::engine::{guarded, Report, Tier, Violation};
 use crate::refmodel::{head, redirect};
 
-pub const RULE: &str = "full product: method (9) x status 300..=399 x policy {Never, SameHost} x response body {Content-Length: 0, Content-Length: 3 + body, chunked body, no framing header} = 7200 cells, each driven through the real flow from Prepare to the state after the response (through RecvBody where there is one), then as_new_flow and the head of the new request. distinct = distinct (method, status class, body kind, outcome) cells";
+pub const RULE: &str = "full product: method (9) x status 300..=399 x policy {Never, SameHost} x response body {Content-Length: 0, Content-Length: 3 + body, chunked body, no framing header} x Location {present, absent} = 14400 cells, each driven through the real flow from Prepare to the state after the response (through RecvBody where there is one), then as_new_flow and the head of the new request. distinct = distinct (method, status class, body kind, outcome) cells";
 
 const METHODS: [&str; 9] = ["GET", "HEAD", "POST", "PUT", "DELETE", "CONNECT", "OPTIONS", "TRACE", "PATCH"];
-const BODIES: [&str; 4] = ["cl0", "cl3", "chunked", "none"];
+const BODIES: [&str; 8] = ["cl0", "cl3", "chunked", "none", "cl0-noloc", "cl3-noloc", "chunked-noloc", "none-noloc"];
 
 fn check_cell(method: &str, status: u16, same_host: bool, body: &str) -> (Option<(String, String)>, String) {
-    let cell = format!("{} {} policy={} body={}", method, status, if same_host { "SameHost" } else { "Never" }, body);
+    // body kinds ending in "-noloc" carry no Location header: the redirect state must be entered all the same
+    let (body, with_loc) = match body.strip_suffix("-noloc") {
+        Some(b) => (b, false),
+        None => (body, true),
+    };
+    let cell = format!("{} {} policy={} body={} location={}", method, status, if same_host { "SameHost" } else { "Never" }, body, with_loc);
     let r = guarded(|| -> Result<String, (String, String)> {
         let mut cfg = ReqCfg::new(method, "1.1", "http://a.test/p").orig("authorization", "S3CRET");
         if crate::refmodel::reqvalid::needs_body(method) {
             cfg = cfg.orig("content-length", "0");
         }
         let mut f = recv_response_flow_cfg(&cfg).map_err(|e| ("C15:harness".to_string(), e))?;
-        let mut resp = format!("HTTP/1.1 {} X\r\nLocation: /next\r\n", status);
+        let mut resp = format!("HTTP/1.1 {} X\r\n{}", status, if with_loc { "Location: /next\r\n" } else { "" });
         let body_bytes: &[u8] = match body {
             "cl0" => {
                 resp.push_str("Content-Length: 0\r\n");
@@ -73,6 +78,12 @@ fn check_cell(method: &str, status: u16, same_host: bool, body: &str) -> (Option
         }
         let want = redirect::new_method(method, status);
         let policy = if same_host { RedirectAuthHeaders::SameHost } else { RedirectAuthHeaders::Never };
+        if !with_loc {
+            return match red.as_new_flow(policy) {
+                Err(_) => Ok("no-location-error".into()),
+                Ok(x) => Err(("C15:followed-without-location".into(), format!("{}: as_new_flow returned {} without a Location header", cell, if x.is_some() { "a new flow" } else { "None" }))),
+            };
+        }
         let got = red.as_new_flow(policy).map_err(|e| ("C15:as-new-flow-error".to_string(), format!("{}: {:?}", cell, e)))?;
         match (got, want) {
             (None, None) => Ok("not-followed".into()),
@@ -139,6 +150,8 @@ pub fn run(_tier: Tier) -> Report {
                 }
                 if let Some((key, what)) = fail {
                     rep.violation(Violation { key, ord, what, replay: json!({"method": m, "status": s, "same_host": p, "body": b}) });
+                } else if ord % 97 == 0 {
+                    crate::engine::validate_case(&mut rep, replay, json!({"method": m, "status": s, "same_host": p, "body": b}));
                 }
             }
             rep
